@@ -147,6 +147,10 @@ def run(ctx):
     # every formatter function against its reviewed emission skeleton
     import emit as _emit
     _emit.rule_F_SKELETON_ALL(ctx)
+    import lskel as _lskel
+    _lskel.rule_L_SKELETON(ctx, which=('lexical', 'fold', 'term'), floor=10)
+    import maps as _mb
+    _mb.rule_M_BINFILL(ctx)
     ctx.undecided = ["equality of the two pipelines' values on every string (nesting, leniency on malformed input)"]
     ctx.assumptions = ["rustc HIR/name resolution is correct", "nar_dev_utils 0.42.3 dictionary semantics as read from its source"]
     ctx.trusted = ["rustc nightly front end (HIR, typeck)", "mirfacts driver", "python rule layer"]
